@@ -41,6 +41,8 @@ for rnd in ("r1", "r2", "r3", "r4"):
     for name, m in items:
         out.append(f"| {name} | {m['needs_to_manifest']} | {', '.join(m['caught_by'])} | {m.get('history', '')} |")
     out.append("")
+out.append("`PROMPT_example_round3_C12.txt` and `PROMPT_example_round4_C13.txt` are two of the task descriptions the sub-agents received, verbatim (the others differ in the property text and the list of ideas already used).")
+out.append("")
 out.append(f"{tot} changes in total. DESIGN.md section 8 discusses what each miss taught and what was changed in the machinery.")
 open(f"{root}/README.md", "w").write("\n".join(out) + "\n")
 print("written", tot)
